@@ -377,12 +377,17 @@ def sheet_xml(cells, rng=None):
         out.append('<dimension ref="%s:%s"/>' % (a1(r0, c0), a1(r1, c1)))
     out.append("<sheetData>")
     cur = None
+    # a writer may leave out the r attribute of a row / cell that directly follows the previous one
+    # (first cell of a row: column A): value cells then count for the position of the formula cells
+    implicit = rng is not None and rng.random() < 0.3
+    prev_c = -1
     for (r, c, kind) in cells:
         if r != cur:
             if cur is not None:
                 out.append("</row>")
-            out.append('<row r="%d">' % (r + 1))
+            out.append("<row>" if (implicit and cur is not None and r == cur + 1) else '<row r="%d">' % (r + 1))
             cur = r
+            prev_c = -1
         f = ""
         k = kind[0]
         if k == "plain":
@@ -396,7 +401,11 @@ def sheet_xml(cells, rng=None):
                 f = '<f t="shared" si="%d">%s</f>' % (kind[1], esc_text(kind[2]))
         elif k == "bad":
             f = '<f t="shared"/>'
-        out.append('<c r="%s">%s<v>0</v></c>' % (a1(r, c), f))
+        if implicit and c == prev_c + 1:
+            out.append('<c>%s<v>0</v></c>' % f)
+        else:
+            out.append('<c r="%s">%s<v>0</v></c>' % (a1(r, c), f))
+        prev_c = c
     if cur is not None:
         out.append("</row>")
     out.append("</sheetData></worksheet>")
